@@ -34,6 +34,9 @@ pub fn line_kinds() -> Vec<(&'static [u8], &'static str)> {
         (b"[1]", "looks-like-exit-code"),
         (b"$ y", "looks-like-command"),
         (b"> z", "looks-like-continuation"),
+        // only the marker: becomes `$ (no-eol)` / `> (no-eol)` when it is the unterminated last line
+        (b"$", "command-marker-alone"),
+        (b">", "continuation-marker-alone"),
         (b"```", "fence3"),
         (b"````", "fence4"),
         (b"a (glob)", "ends-like-modifier"),
